@@ -419,7 +419,22 @@ func c05Seq(kind string, ops []string) (res string) {
 			_, vals := c05Cond(t, a)
 			w = t.mocker(b).When(vals...)
 		case "mS":
-			w = t.mocker(b).Returns(c05Vals(t, a)...)
+			// a configuration call rejected with ReturnsNotMatch is an observation ("R"); the history goes on with the mocker as it is
+			rej := func() (rej bool) {
+				defer func() {
+					if r := recover(); r != nil {
+						if !strings.Contains(fmt.Sprint(r), "returns lenth not match") {
+							panic(r)
+						}
+						rej = true
+					}
+				}()
+				w = t.mocker(b).Returns(c05Vals(t, a)...)
+				return false
+			}()
+			if rej {
+				obs = append(obs, "R")
+			}
 		case "wR", "wA", "wS", "wW", "wM":
 			if w == nil {
 				continue
@@ -623,7 +638,7 @@ func c05Conc(kind, mode string, n, G, K int) (res string) {
 			my := make([]c05Rec, 0, K)
 			atomic.AddInt32(&ready, 1)
 			for spins := 0; atomic.LoadInt32(&ready) < int32(G); spins++ {
-				if spinYield || spins > 2000000 { // never burn a CPU quota waiting for goroutines that cannot run
+				if spinYield || spins > 300000 { // never burn a CPU quota waiting for goroutines that cannot run
 					runtime.Gosched()
 				}
 			}
